@@ -27,7 +27,8 @@ EXPLANATION = ("quick: ALL sets of 1..2 reactions over the 90 reactions between 
                "(4095 networks; names/rules/ids/insertion order are PRNG decorations); thorough adds ALL sets of 1..2 reactions with every "
                "coefficient in {0,1,2} over 3 species, one representative per species-permutation orbit (~4.5e4).  Plus seeded random "
                "networks <= 7 species x 6 reactions (coefficients <= 3, catalysts, repeats, multi-digit factors, isolated species, bipartite "
-               "views), mass-balanced random networks (LP branch of is_conservative), textbook families and the regression corpus.  "
+               "views incl. node ids permuted against the labels), 40 networks with 10-14 species and 10-14 reactions (two-digit node ids, "
+               "row/column indices and generated edge ids; every view), mass-balanced random networks (LP branch of is_conservative), textbook families and the regression corpus.  "
                "Theorems: build_S entries / order / agreement with incidence_matrix for every network; soundness of the rank, "
                "conservativity and consistency certificate checkers for every integer matrix; kernel dimensions from the certified rank.")
 TRUSTED_BASE = [
@@ -47,6 +48,9 @@ TESTED_NOT_PROVED = [
     "numpy matrix_rank / scipy null_space / HiGHS verdicts equal the certified exact values (per input, every case)",
     "existence of a certificate (hard direction of Stiemke): the finder produced a checked certificate for every generated input",
     "integer_conservation_laws: count = species - rank (oracle); exact annihilation share is reported in the distribution only",
+    "a hypergraph analysed, edited (reactions added) and analysed again gives the analysis of the edited network (oracle only, hypergraph view)",
+    "caller-supplied bipartite graphs whose node ids are unrelated to the labels (views bip_perm / bip_sperm): compared per run with the model, "
+    "in which node ids do not exist — the theorem about build_S is stated on the labelled network",
 ]
 LEVEL_TEXT = ("Machine-checked proof (Coq) that the model of build_S has one row per species (sorted labels), one column per reaction "
               "(stable order by rule label then id), entry = produced - consumed, and equals the network's own incidence matrix up to that "
@@ -80,6 +84,17 @@ def view_of(case, H):
         return hypergraph_to_bipartite(H, integer_ids=True)
     if v == "bip_str":
         return hypergraph_to_bipartite(H, integer_ids=False)
+    if v in ("bip_perm", "bip_sperm"):
+        # caller-supplied graph whose node ids are unrelated to the labels: the integer ids 1..N+M of the export
+        # permuted (species and reaction ids interleaved, multi-digit), or strings "n<k>" (string order != numeric order)
+        import random
+        import networkx as nx
+        G = hypergraph_to_bipartite(H, integer_ids=True)
+        nodes = list(G.nodes)
+        ids = list(range(1, len(nodes) + 1))
+        random.Random(case.get("perm_seed", 0)).shuffle(ids)
+        mp = {u: (k if v == "bip_perm" else "n%d" % k) for u, k in zip(nodes, ids)}
+        return nx.relabel_nodes(G, mp, copy=True)
     return H
 
 
@@ -370,6 +385,28 @@ def oracle(case):
         if bool(v) != truth_f:
             bad("consistent", "%s=%r but a strictly positive steady flux %s (certificate %s %r)  S=%r"
                 % (nm, v, "exists" if truth_f else "does not exist", fk, fv, Si))
+    # --- the same network object analysed, EDITED (remaining reactions added), analysed again: the second analysis must
+    #     be the analysis of the edited network (no result remembered per object); Python-oracle only
+    if case.get("view", "hyper") == "hyper" and len(case["rxns"]) >= 2 and not case.get("iso"):
+        from synkit.CRN.Hypergraph.hypergraph import CRNHyperGraph
+        cut = len(case["rxns"]) // 2
+        H2 = CRNHyperGraph()
+        for eid, rule, l, r in case["rxns"][:cut]:
+            H2.add_rxn({s_: c for s_, c in l}, {s_: c for s_, c in r}, rule=rule, edge_id=eid)
+        try:
+            stoich.build_S(H2), stoich.stoichiometric_rank(H2), stoich.is_conservative(H2), stoich.summary(H2)
+        except ValueError:
+            pass
+        for eid, rule, l, r in case["rxns"][cut:]:
+            H2.add_rxn({s_: c for s_, c in l}, {s_: c for s_, c in r}, rule=rule, edge_id=eid)
+        sp2, rx2, S2 = stoich.build_S(H2)
+        sm2 = stoich.summary(H2)
+        if list(sp2) != list(sp) or list(rx2) != list(rx) or not np.array_equal(np.asarray(S2, dtype=float), S):
+            bad("edited-network", "build_S after adding reactions %d.. to an already analysed hypergraph differs from build_S of the "
+                "whole network: rows %r vs %r" % (cut, list(sp2), list(sp)))
+        elif (sm2.rank, sm2.is_conservative, sm2.is_consistent) != (sm.rank, sm.is_conservative, sm.is_consistent):
+            bad("edited-network", "summary after editing an analysed hypergraph %r, of the whole network %r" % (
+                (sm2.rank, sm2.is_conservative, sm2.is_consistent), (sm.rank, sm.is_conservative, sm.is_consistent)))
     return fails[:4]
 
 
@@ -440,19 +477,94 @@ def distribution(cases, obss):
 
 # ------------------------------------------------------------------ generators
 
+BIG_NAMES = [
+    lambda n: ["X%d" % i for i in range(1, n + 1)],                 # X1, X10, X11, ..., X2: label order != numeric order
+    lambda n: ["%d" % i for i in range(1, n + 1)],                  # bare numbers as labels
+    lambda n: ["S%02d" % i for i in range(1, n + 1)],               # zero padded
+    lambda n: list("ABCDEFGHIJKLMNOP")[:n],
+    lambda n: ["m%d_a" % i if i % 3 else "M%d" % i for i in range(n, 0, -1)],
+]
+BIG_VIEWS = ["hyper", "bip_int", "bip_str", "bip_perm", "bip_sperm"]
+
+
+def big_net(rng, k, kind="big"):
+    """10-14 species and 10-14 reactions: two-digit node ids / row and column indices / generated edge ids
+    (r_10 < r_2 as strings), sparse reactions, some reversed and repeated; every view in turn."""
+    ns, nr = rng.randint(10, 14), rng.randint(10, 14)
+    sp = BIG_NAMES[k % len(BIG_NAMES)](ns)
+    rng.shuffle(sp)
+    sides = []
+    used = set()
+    while len(sides) < nr:
+        z = rng.random()
+        if z < 0.2 and sides:
+            l0, r0 = rng.choice(sides)
+            l, r = [list(x) for x in r0], [list(x) for x in l0]
+        elif z < 0.25 and sides:
+            l0, r0 = rng.choice(sides)
+            l, r = [list(x) for x in l0], [list(x) for x in r0]
+        else:
+            l = {s: rng.choice([1, 1, 1, 2, 3]) for s in rng.sample(sp, rng.choice([0, 1, 1, 1, 2, 2]))}
+            r = {s: rng.choice([1, 1, 1, 2, 3]) for s in rng.sample(sp, rng.choice([0, 1, 1, 1, 2, 2]))}
+            if not l and not r:
+                continue
+            if len(sides) < ns - len(used) + 2:        # make sure every species occurs (N >= 10 rows)
+                free = [s for s in sp if s not in used]
+                if free:
+                    (l if rng.random() < 0.5 else r)[free[0]] = 1
+            l, r = [list(x) for x in l.items()], [list(x) for x in r.items()]
+            rng.shuffle(l)
+        used |= {s for s, _ in l + r}
+        sides.append((l, r))
+    style = ["num", "gen", "adv", "one-rule"][k % 4]
+    if style == "one-rule":                            # add_rxn's own ids r_1..r_14 under a single rule label
+        rx = [["r_%d" % (i + 1), "r", l, r] for i, (l, r) in enumerate(sides)]
+        rng.shuffle(rx)
+    else:
+        rx = G.assign_ids(sides, rng, style=style if style != "adv" else "gen")
+    iso = [s for s in sp if s not in used]
+    return dict(kind=kind, rxns=rx, iso=iso, view=BIG_VIEWS[(k // 2) % len(BIG_VIEWS)], perm_seed=rng.randrange(10 ** 6))
+
+
+def _sweep_sample(count, rng, kind):
+    """random sample of the coefficient sweep (sets of 1..2 reactions, coefficients in {0,1,2}, 3 species) without
+    enumerating the orbit representatives (the thorough tier enumerates them all)."""
+    R = G.coeff_reactions()
+    sp = ("A", "B", "C")
+    cases, seen = [], set()
+    while len(cases) < count:
+        rep = tuple(sorted(rng.sample(range(len(R)), rng.choice([1, 2, 2, 2]))))
+        if rep in seen:
+            continue
+        seen.add(rep)
+        sides = []
+        for i in rep:
+            l, r = R[i]
+            sides.append(([[sp[q], l[q]] for q in range(3) if l[q]], [[sp[q], r[q]] for q in range(3) if r[q]]))
+        rng.shuffle(sides)
+        cases.append(dict(kind=kind, rxns=G.assign_ids(sides, rng, style=rng.choice(["gen", "adv"])), iso=[], view="hyper"))
+    return cases
+
+
 def gen_cases(tier, rng):
     cases = []
     cases += G.textbook()
+    for k in range(40 if tier == "quick" else 400):
+        cases.append(big_net(rng, k))
     cases += G.exhaustive_alphabet(2, rng, "exh-alphabet<=2")
     if tier == "quick":
         nrand, ncons, nsw = 500, 250, 400
-        cases += G.coeff_sweep(2, rng, "coeff-sweep-sample", limit=nsw)
+        cases += _sweep_sample(nsw, rng, "coeff-sweep-sample")
     else:
         nrand, ncons = 6000, 2500
         cases += G.coeff_sweep(2, rng, "exh-coeff{0,1,2}<=2")
         cases += G.sample_alphabet(3, 8000, rng, "sample-alphabet-3")
     for _ in range(nrand):
-        cases.append(G.random_net(rng))
+        c = G.random_net(rng)
+        if c["view"] != "hyper" and rng.random() < 0.4:      # node ids unrelated to the labels
+            c["view"] = "bip_perm" if c["view"] == "bip_int" else "bip_sperm"
+            c["perm_seed"] = rng.randrange(10 ** 6)
+        cases.append(c)
     for _ in range(ncons):
         cases.append(G.conservative_net(rng))
     # degenerate inputs: no reaction at all (ValueError is the documented behaviour of _split_species_reactions)
